@@ -144,6 +144,10 @@ var templates = []string{
 	// two script goroutines that share scopes only (never a container): one keeps assigning, the other copies scopes (module assignment), defines, deletes
 	"cg = 0\ngo func() { for ci = 0; ci < 2000; ci++ { cg = ci } }()\nfor cj = 0; cj < 400; cj++ { cx = mod }", "module cm { v = 0; func set(a) { v = a } }\ngo func() { for ci = 0; ci < 2000; ci++ { cm.set(ci) } }()\nfor cj = 0; cj < 400; cj++ { cy = cm }",
 	"cg = 0\ngo func() { for ci = 0; ci < 2000; ci++ { cg = %s } }()\nfor cj = 0; cj < 400; cj++ { var cx = mod; delete(\"cx\") }", "go func() { for ci = 0; ci < 1000; ci++ { module cm { a = 1 } } }()\nfor cj = 0; cj < 400; cj++ { cx = mod; cz = cj }",
+	// typed nil module pointers: a module's type as element type of a made container
+	"make(type TM, mod)\nsm = make([]TM, 1)\nx = sm[0]\nx", "make(type TM, mod)\nsm = make([]TM, 1)\nsm[0].x", "make(type TM, mod)\nsm = make([]TM, 1)\nsm[0].x = %s", "make(type TM, mod)\nsm = make([]TM, 1)\nvar x, y = sm[0], %s",
+	"make(type TM, mod)\nsm = make([]TM, 1)\n%s(sm[0])", "make(type TM, mod)\nsm = make([]TM, 1)\nfor k in sm { k.x }", "make(type TM, mod)\nmm = map[string]TM{}\nx = mm.k\nmm.k.g(%s)", "make(type TM, mod)\npm = new(TM)\nx = *pm\n(*pm).x",
+	"make(type TM, mod)\nsm = make([]TM, 1)\nx = sm[0]\nmake(x.T)\nnew(x.y.T)", "make(type TM, mod)\nsm = make([]TM, 1)\nx, y = sm[0], sm[0]\nx == y\nx.g(%s)", "make(type TM, mod)\nst2 = make(struct{M TM})\nx = st2.M\nst2.M.x = %s",
 	"try { %s(%s) } catch e { e.Error() }", "try { throw %s } catch e { e = %s }", "module m2 { a = %s }; m2.a(%s)", "x = %s; x.y = %s", "x = %s; x[0] = %s; x",
 }
 
